@@ -174,10 +174,89 @@ pub struct TransOut {
     pub viol: Vec<Violation>,
     /// machinery error (non-deterministic replay etc.)
     pub machinery: Option<String>,
+    /// The post state has the same canonical key as the pre state (everything the
+    /// hook reports is unchanged, same table allocation) and still the bytes of the
+    /// cache object itself differ: the operation wrote state the canonical key
+    /// cannot see. Holds the offsets of the differing bytes.
+    pub hidden: Option<Vec<u8>>,
 }
 
 fn v(props: Props, rule: &'static str, detail: String) -> Violation {
     Violation { props, rule, detail }
+}
+
+static CHILD_BUDGET: std::sync::atomic::AtomicUsize = std::sync::atomic::AtomicUsize::new(300);
+
+/// End of life of a cache whose structure is incoherent, tried out in a forked
+/// child process (the parent must not touch such a cache: dropping it may be
+/// undefined behaviour). The child gives back what the harness holds, drops the
+/// cache and reports what the identity registry saw: Some(why) if a key or value
+/// is dropped twice or never (or the drop crashes / does not come back), None if
+/// every instance was dropped exactly once or the experiment was inconclusive.
+pub fn end_of_life_in_child(ex: &mut Exec) -> Option<String> {
+    use std::sync::atomic::Ordering;
+    if CHILD_BUDGET.fetch_update(Ordering::SeqCst, Ordering::SeqCst, |b| b.checked_sub(1)).is_err() {
+        return None;
+    }
+    unsafe {
+        let mut fds = [0 as libc::c_int; 2];
+        if libc::pipe(fds.as_mut_ptr()) != 0 {
+            return None;
+        }
+        let pid = libc::fork();
+        if pid < 0 {
+            libc::close(fds[0]);
+            libc::close(fds[1]);
+            return None;
+        }
+        if pid == 0 {
+            // child: only this thread exists; crashes must not reach the parent's markers
+            for sig in [libc::SIGSEGV, libc::SIGABRT, libc::SIGBUS, libc::SIGILL, libc::SIGFPE] {
+                libc::signal(sig, libc::SIG_DFL);
+            }
+            libc::close(fds[0]);
+            let _ = take_reg_violations();
+            let r = catch_unwind(AssertUnwindSafe(|| {
+                ex.release();
+                drop(ex.cache.take());
+            }));
+            let double = take_reg_violations().len().min(250) as u8;
+            let live = live_serials().len().min(250) as u8;
+            let msg = [if r.is_err() { 1u8 } else { 0 }, double, live];
+            libc::write(fds[1], msg.as_ptr() as *const libc::c_void, 3);
+            libc::_exit(0);
+        }
+        libc::close(fds[1]);
+        let mut pfd = libc::pollfd { fd: fds[0], events: libc::POLLIN, revents: 0 };
+        let ready = libc::poll(&mut pfd, 1, 3000);
+        let mut msg = [0u8; 3];
+        let n = if ready > 0 { libc::read(fds[0], msg.as_mut_ptr() as *mut libc::c_void, 3) } else { -1 };
+        libc::close(fds[0]);
+        if ready <= 0 {
+            libc::kill(pid, libc::SIGKILL);
+        }
+        let mut status: libc::c_int = 0;
+        libc::waitpid(pid, &mut status, 0);
+        if ready <= 0 {
+            return Some("dropping the cache does not come back within 3 s".into());
+        }
+        if n != 3 {
+            if libc::WIFSIGNALED(status) {
+                return Some(format!("dropping the cache dies on signal {}", libc::WTERMSIG(status)));
+            }
+            return None;
+        }
+        if msg[0] != 0 {
+            return Some("dropping the cache panics".into());
+        }
+        if msg[1] != 0 {
+            return Some(format!("{} registry violation(s) (an instance dropped twice or used after its drop) when the cache is dropped", msg[1]));
+        }
+        if msg[2] != 0 {
+            return Some(format!("{} key / value instance(s) are never dropped: still alive after the cache and everything it handed out were dropped", msg[2]));
+        }
+        None
+    }
 }
 
 /// Sanity precondition (3.8) of an observed state. Returns the reason if the
@@ -235,6 +314,7 @@ pub fn run_transition_h(
                 post_key: None,
                 viol,
                 machinery: Some(format!("pre-state no longer validates on replay: {why}")),
+                hidden: None,
             }
         }
     };
@@ -244,6 +324,7 @@ pub fn run_transition_h(
                 post_key: None,
                 viol,
                 machinery: Some(format!("replay of a witness history reached a different state: stored {:?} replayed {:?}", k, pre.key)),
+                hidden: None,
             };
         }
         st.replays_validated += 1;
@@ -251,7 +332,9 @@ pub fn run_transition_h(
     let _ = take_reg_violations(); // the pre-state was judged when it was discovered
     let mark = reg(|r| r.drop_log.len());
     let c0 = counts();
+    let raw_pre = crate::faults::raw_bytes(ex.cr());
     let ret = apply_caught(&mut ex, op);
+    let raw_post = crate::faults::raw_bytes(ex.cr());
     let c1 = counts();
     let side = ex.side.clone();
 
@@ -273,7 +356,7 @@ pub fn run_transition_h(
                     ));
                     std::mem::forget(ex.cache.take());
                     viol.retain(|x| x.props & ctx.sel != 0);
-                    return TransOut { post_key: None, viol, machinery: None };
+                    return TransOut { post_key: None, viol, machinery: None, hidden: None };
                 }
             }
         }
@@ -294,10 +377,18 @@ pub fn run_transition_h(
                 "C07.structure",
                 format!("after the operation the list/table structure is incoherent: {why}"),
             ));
+            // what becomes of the keys and values when such a cache is dropped is
+            // tried out in a child process
+            if ctx.sel & p(6) != 0 {
+                st.rule("C06.end-of-life");
+                if let Some(how) = end_of_life_in_child(&mut ex) {
+                    viol.push(v(p(6), "C06.end-of-life", format!("the operation leaves the list/table structure incoherent ({why}); dropping the cache in that state (tried in a child process): {how}")));
+                }
+            }
             // the cache is not safe to operate on or drop
             std::mem::forget(ex.cache.take());
             viol.retain(|x| x.props & ctx.sel != 0);
-            return TransOut { post_key: None, viol, machinery: None };
+            return TransOut { post_key: None, viol, machinery: None, hidden: None };
         }
     };
     st.rule("C07.structure");
@@ -314,7 +405,7 @@ pub fn run_transition_h(
             viol.push(v(p(7) | ctx.fault_props | p(4) | op_owner(op), "C07.traversal", why));
             std::mem::forget(ex.cache.take());
             viol.retain(|x| x.props & ctx.sel != 0);
-            return TransOut { post_key: None, viol, machinery: None };
+            return TransOut { post_key: None, viol, machinery: None, hidden: None };
         }
     };
     for rv in take_reg_violations() {
@@ -898,7 +989,39 @@ pub fn run_transition_h(
     }
 
     viol.retain(|x| x.props & ctx.sel != 0);
-    TransOut { post_key: if expand { Some(post_key) } else { None }, viol, machinery: None }
+    // a self-loop as far as the hook can tell, on the same table allocation, and yet the
+    // object's own bytes changed: hidden state (explored separately, never merged)
+    let hidden = if expand && !matches!(op, Op::CloneSwap) && post_key == pre.key && raw_pre != raw_post {
+        // addresses of the cache's own allocations are not state: words that point at the
+        // seal or into the table allocation are compared by what they point at
+        let norm = |raw: &[u8], d: &lru_mem::VerifDump| -> Vec<u64> {
+            raw.chunks(8)
+                .map(|c| {
+                    let mut b = [0u8; 8];
+                    b[..c.len()].copy_from_slice(c);
+                    let w = u64::from_ne_bytes(b);
+                    if c.len() < 8 {
+                        w
+                    } else if w as usize == d.seal {
+                        0x5EA1_0000_0000_0000
+                    } else if d.alloc_size > 0 && (w as usize) >= d.alloc_addr && (w as usize) <= d.alloc_addr + d.alloc_size {
+                        0x7AB1_0000_0000_0000 + (w - d.alloc_addr as u64)
+                    } else {
+                        w
+                    }
+                })
+                .collect()
+        };
+        let (a, b) = (norm(&raw_pre, &pre.dump), norm(&raw_post, &post_dump));
+        if a != b {
+            Some(a.iter().zip(b.iter()).enumerate().filter(|(_, (x, y))| x != y).map(|(i, _)| i as u8).collect())
+        } else {
+            None
+        }
+    } else {
+        None
+    };
+    TransOut { post_key: if expand { Some(post_key) } else { None }, viol, machinery: None, hidden }
 }
 
 fn ids_of(o: &Obs, serials: &[u64]) -> Vec<u32> {
